@@ -1,7 +1,7 @@
 \* as coded: Evolution.recover rebuilds the population in proposal order
 SPECIFICATION Spec
 CONSTANTS
-  Algs = {"regevo", "nsga2", "neat"}
+  Algs = {"regevo", "nsga2", "neat", "sched"}
   D = 3
   N = 3
   W = 2
